@@ -16,6 +16,10 @@ Granularity of actions = the code's atomic sections:
   and on the last barrier: flush pending, DKV checkpoint, ack to the job, reset, parked senders released).
 * `tick`/`stale` — the batcher's timeout callback delivering the token captured by the latest / the
   previous `timer.Set` on `BatchTimedOut`.
+* `armFail`      — environment: the next `OperatorCheckpointComplete` call fails (job unreachable).
+* `redeploy`     — `HandleDeploy` on the running operator (fresh storage, no checkpoints to restore): the
+  half-aligned checkpoint of the previous deployment is abandoned, its parked senders are turned away with an
+  error (fixes D15 + D43); the event batcher and calls already past alignment survive, as in the code.
 The scripts of the senders are not fixed in advance: every `align` action carries its item, so quantifying
 over all action lists quantifies over every per-sender sequence and every interleaving at once.
 
@@ -30,6 +34,7 @@ inductive Item where
   | ev (key : Bytes) (p t : Nat)
   | wm (ts : Nat)
   | bar (id : Nat)
+  | done                      -- `SourceComplete`
 deriving DecidableEq, Repr, Inhabited
 
 /-- what the event batcher holds / the handler receives -/
@@ -74,12 +79,17 @@ inductive Obs where
   | aligned (sr : Nat) (passed : Bool)
   | busy (sr : Nat)
   | proc (sr : Nat) (it : Item)                             -- the consumer took sender `sr`'s item
-  | handler (es : List Entry) (given : List (Bytes × Bytes)) -- one `ProcessEventBatch` call
+  | handler (es : List Entry) (w : Nat) (given : List (Bytes × Bytes)) -- one `ProcessEventBatch` call (events, watermark, key states)
+  | fired (key : Bytes) (ts : Nat)                          -- ghost: `AdvanceWatermark` removed a due timer from the store
   | reg (sr : Nat) (id : Nat)                               -- barrier accepted by `registerBarrier`
   | reject (sr : Nat) (got have_ : Nat)                     -- checkpoint id mismatch
   | snap (id : Nat) (kv : KVf) (timers : Timers)            -- contents of the DKV checkpoint
   | ack (id : Nat)                                          -- `OperatorCheckpointComplete`
   | released (srs : List Nat)                               -- senders woken by `close(allBarriersReceived)`
+  | ackfail (id : Nat)                                      -- `OperatorCheckpointComplete` returned an error
+  | completed (sr : Nat)                                    -- `SourceComplete` handled
+  | stopped                                                 -- no active source left: `o.stop()`
+  | redeployed (aborted : List Nat)                         -- `HandleDeploy`; parked senders turned away
 
 structure St where
   k : Nat
@@ -96,10 +106,16 @@ structure St where
   timers : Timers
   wms : Nat → Nat
   watermark : Nat
+  /-- environment: the next ack to the job fails -/
+  ackFails : Bool
+  /-- `o.sourceRunners.active` -/
+  active : List Nat
+  stopped : Bool
 
 def init (k maxSize : Nat) : St :=
   { k := k, maxSize := maxSize, slots := fun _ => none, pending := [], token := 0, lastSet := none,
-    prevSet := none, ckpt := none, kv := emptyKV, timers := [], wms := fun _ => 0, watermark := 0 }
+    prevSet := none, ckpt := none, kv := emptyKV, timers := [], wms := fun _ => 0, watermark := 0,
+    ackFails := false, active := List.range k, stopped := false }
 
 /-- the key states handed to the handler: one per distinct key of the batch, read before the batch is applied -/
 def givenOf (kv : KVf) (es : List Entry) : List (Bytes × Bytes) :=
@@ -112,7 +128,7 @@ def flush (s : St) : St × List Obs :=
     ({ s with kv := s.pending.foldl applyRec s.kv,
               timers := s.pending.foldl (setTimer s.watermark) s.timers,
               pending := [], token := s.token + 1 },
-     [.handler s.pending (givenOf s.kv s.pending)])
+     [.handler s.pending s.watermark (givenOf s.kv s.pending)])
 
 /-- `eventBatcher.Add`: append; a new batch arms the timeout timer with the current token -/
 def push (s : St) (e : Entry) : St :=
@@ -140,7 +156,7 @@ def fireLoop (sr w : Nat) : Nat → St → List Obs → St × List Obs
       if w < ts then (s, o)
       else
         let r := addEntry { s with timers := rest } (.timer sr key ts)
-        fireLoop sr w n r.1 (o ++ r.2)
+        fireLoop sr w n r.1 (o ++ .fired key ts :: r.2)
 
 def release (slots : Nat → Option (Item × Bool)) : Nat → Option (Item × Bool) :=
   fun i => (slots i).map fun x => (x.1, true)
@@ -163,8 +179,13 @@ def barrier (s : St) (sr id : Nat) : St × List Obs :=
     let missing := c.2.filter (· ≠ sr)
     if missing.isEmpty then
       let r := flush s
-      ({ r.1 with ckpt := none, slots := release r.1.slots },
-       [.reg sr id] ++ r.2 ++ [.snap c.1 r.1.kv r.1.timers, .ack c.1, .released (parkedList s)])
+      if s.ackFails then
+        -- the DKV checkpoint exists but the job never hears of it; the completed record stays in place
+        ({ r.1 with ckpt := some (c.1, []), slots := release r.1.slots, ackFails := false },
+         [.reg sr id] ++ r.2 ++ [.snap c.1 r.1.kv r.1.timers, .ackfail c.1, .released (parkedList s)])
+      else
+        ({ r.1 with ckpt := none, slots := release r.1.slots },
+         [.reg sr id] ++ r.2 ++ [.snap c.1 r.1.kv r.1.timers, .ack c.1, .released (parkedList s)])
     else ({ s with ckpt := some (c.1, missing) }, [.reg sr id])
 
 /-- the event function the consumer runs -/
@@ -175,6 +196,12 @@ def process (s : St) (sr : Nat) : Item → St × List Obs
     let w := minWm s.k wms
     fireLoop sr w s.timers.length { s with wms := wms, watermark := w } []
   | .bar id => barrier s sr id
+  | .done =>
+    -- `handleSourceComplete`: flush, deactivate, stop when no source is active any more
+    let r := flush s
+    let act := r.1.active.filter (· ≠ sr)
+    ({ r.1 with active := act, stopped := act.isEmpty },
+     r.2 ++ .completed sr :: (if act.isEmpty then [.stopped] else []))
 
 /-- the batcher's timeout callback delivered to `processEvents` -/
 def timeout (s : St) : Option Nat → St × List Obs
@@ -186,15 +213,28 @@ inductive Act where
   | go (sr : Nat)
   | tick
   | stale
+  | armFail
+  | redeploy
 deriving Repr
 
-/-- `alignSender`: pass iff there is no checkpoint or the sender's barrier is still missing -/
+/-- `alignSender`: pass iff there is no checkpoint or the sender's barrier is still missing; a sender that
+waits on a checkpoint whose channel is already closed (all barriers arrived, record still in place after a
+failed ack) continues at once -/
 def passes (s : St) (sr : Nat) : Bool :=
   match s.ckpt with
   | none => true
-  | some (_, m) => m.contains sr
+  | some (_, m) => m.contains sr || m.isEmpty
 
-def step (s : St) : Act → St × List Obs
+/-- `HandleDeploy` (no checkpoints to restore, fresh storage) -/
+def redeploy (s : St) : St × List Obs :=
+  ({ s with ckpt := none,
+            slots := fun i => match s.slots i with
+              | some (_, false) => none      -- woken with `errCheckpointAbandoned`
+              | x => x,
+            kv := emptyKV, timers := [], wms := fun _ => 0, watermark := 0, active := List.range s.k },
+   [.redeployed (parkedList s)])
+
+def stepLive (s : St) : Act → St × List Obs
   | .align sr it =>
     if sr < s.k then
       match s.slots sr with
@@ -213,6 +253,11 @@ def step (s : St) : Act → St × List Obs
     else (s, [])
   | .tick => timeout s s.lastSet
   | .stale => timeout s s.prevSet
+  | .armFail => ({ s with ackFails := true }, [])
+  | .redeploy => redeploy s
+
+/-- after `o.stop()` the consumer is gone: nothing happens any more -/
+def step (s : St) (a : Act) : St × List Obs := if s.stopped then (s, []) else stepLive s a
 
 /-- run a schedule, accumulating the observations -/
 def runFrom (s : St) (acc : List Obs) : List Act → St × List Obs
